@@ -3,7 +3,7 @@ import re
 
 NOCONST = object()
 
-_SIMPLE = ('none', 'bool', 'int', 'str', 'any')
+_SIMPLE = ('none', 'bool', 'int', 'str', 'any', 'nestr')
 
 
 def parse_ty(s):
@@ -81,6 +81,8 @@ def ty_str(ty):
 
 
 def atom_kind(a):
+    if a == 'nestr':          # non-empty string (identifiers)
+        return 'str'
     return a if isinstance(a, str) else a[0]
 
 
